@@ -179,7 +179,25 @@ def oracle(case, obs, prep=None):
                 c_sub = sub["overall"]["c"]
                 if cls is not None and cls != c_sub:
                     bad.append((l, f"sub-workflow {selected[0]['wf']} ends {c_sub} for these inputs but the step is reported {cls}"))
+                elif c_sub == "ok" and cls == "ok" and obs_mode.get(l) and l in state \
+                        and canon_unordered(state[l]) != sub.get("state"):
+                    bad.append((l, f"the step's value {state[l]!r} is not the state of the selected sub-workflow "
+                                   f"{selected[0]['wf']} ({sub.get('state')})"))
                 eff[l] = c_sub
+        # (4c) what ran is the Function the (selected) reference names: a Function whose outcome class is fixed by
+        # construction (precondition-forced, or a ResourceFunction mode over its own objects) gives the step that class
+        want = []
+        for t in selected:
+            f = fns.get(t["fn"]) if t and "fn" in t else None
+            if f is None or f.get("by") or (f.get("rf") and f["rf"]["nameKey"] and not f["rf"]["pre"]):
+                want = None
+                break
+            want.append(f["c"])
+        if want is not None and cls is not None and (not fe or all(c == "ok" for c in want)):
+            expect = "ok" if fe else want[0]
+            if cls != expect:
+                which = selected[0]["fn"] if not fe else "the selected Functions"
+                bad.append((l, f"the Logic to evaluate is {which} (which answers {expect}) but the step is {cls}"))
         # (5) inputs exact: an echoing Function shows what the Logic received
         if cls == "ok" and obs_mode.get(l) and l in state:
             got = state[l]
@@ -199,6 +217,27 @@ def oracle(case, obs, prep=None):
                     bad.append((l, f"evaluation {i} is not the answer of {t['fn']}: {out!r}"))
                 elif not same(out.get("got"), ev):
                     bad.append((l, f"evaluation {i} received {out.get('got')!r}, expected exactly {ev!r}"))
+    # (6) every Ok step's published state reaches Result.state (later listed step wins on a shared key)
+    expect: dict = {}
+    for s in steps:
+        st = s.get("state")
+        if not st or "map" not in st:
+            continue
+        c = classes.get(s["label"])
+        sure = all("lit" in e or e.get("path") == ["value"] for _, e in st["map"])
+        for k, e in st["map"]:
+            if c == "ok" and sure and "lit" in e:
+                expect[k] = ("lit", e["lit"], s["label"])
+            elif c is None or c == "ok":
+                expect[k] = None
+    for k, v in expect.items():
+        if v is None:
+            continue
+        if k not in state:
+            bad.append((v[2], f"step {v[2]} ended Ok and publishes state key {k!r} = {v[1]!r}, but Result.state has no such key"))
+        elif not same(state[k], v[1]):
+            bad.append((v[2], f"step {v[2]} ended Ok and is the last listed step to publish state key {k!r} = {v[1]!r}, "
+                              f"but Result.state has {state[k]!r}"))
     return bad
 
 
@@ -403,6 +442,19 @@ def run(tier: str) -> int:
         ianswers = [None] * len(icases)
     for c, ans in zip(icases, ianswers):
         check_case(ck, c, ans, "forEach-item-error")
+    # targeted (second round of seeded changes): one Koreo name under several kinds in a refSwitch; a forEach refSwitch
+    # whose switchOn reads steps.*; Ok steps with falsy values that publish state
+    for tag, g, nq, nt in (("shared-name-switch", gen_wf.gen_shared_name_switch_case, 40, 400),
+                           ("forEach-switch-on-steps", gen_wf.gen_foreach_switch_steps_case, 40, 400),
+                           ("falsy-value-state", gen_wf.gen_falsy_state_case, 40, 400)):
+        rt = rng("c01-" + tag)
+        xs = [g(rt) for _ in range(nq if tier == "quick" else nt)]
+        try:
+            xa = drv.ask([gen_wf.to_req(c) for c in xs])
+        except Infra:
+            xa = [None] * len(xs)
+        for c, ans in zip(xs, xa):
+            check_case(ck, c, ans, tag)
     # exhaustive small DAGs × outcome assignments
     try:
         k = exhaustive(ck, drv, 3 if tier == "quick" else 4)
